@@ -524,6 +524,7 @@ func runHist(h *Hist) (string, string) {
 			crt := certs[op.Cert]
 			serial := crt.SerialNumber.String()
 			_, _, before := e.record(serial)
+			t0 := time.Now().Unix()
 			fail := 0
 			if h.GOR {
 				fail = op.Fail
@@ -545,8 +546,14 @@ func runHist(h *Hist) (string, string) {
 				ans = "err" // the record is stored, the regeneration failed
 			}
 			fault = nil
+			t1 := time.Now().Unix()
 			at, exp, ok := e.record(serial)
 			l := observe()
+			// the revocation time of a record this request stored is the time of the request (also for a certificate that is not valid
+			// yet, or expired): an order of clock readings, no duration
+			if ok && !before && (at < t0 || at > t1) {
+				ans += "+VIOLATION=recorded-revocation-time-is-not-the-time-of-the-request"
+			}
 			if !ok {
 				at, exp = 0, "-"
 				ans += "+norecord"
@@ -1001,7 +1008,8 @@ func runConfig(cf *Config) (string, string) {
 		return strconv.FormatInt(*p, 10)
 	}
 	in := fmt.Sprintf("cfg enabled=%s cache=%s renew=%s", c.B(cf.Enabled), show(cf.Cache), show(cf.Renew))
-	crl := &config.CRLConfig{Enabled: cf.Enabled, CacheDuration: dur(cf.Cache), RenewPeriod: dur(cf.Renew)}
+	// generate-on-revoke is on in every case: whatever the defaulting does to the durations, the other options of the section stay
+	crl := &config.CRLConfig{Enabled: cf.Enabled, GenerateOnRevoke: true, CacheDuration: dur(cf.Cache), RenewPeriod: dur(cf.Renew)}
 	whole := &config.Config{CRL: crl}
 	whole.Init()
 	if err := crl.Validate(); err != nil {
@@ -1050,6 +1058,25 @@ func runConfig(cf *Config) (string, string) {
 	l := (&env{ca: ca}).fetch()
 	if l.bad != "" || (l.next-l.this)*int64(time.Second) != int64(eff.CacheDuration.Duration)/int64(time.Second)*int64(time.Second) {
 		out += " VIOLATION=served-interval-differs-from-effective-cache-duration"
+	}
+	if !eff.Enabled || !eff.GenerateOnRevoke {
+		out += " VIOLATION=option-of-the-crl-section-lost-by-the-defaulting"
+	}
+	// and the option works: a revocation is in the list served right after its acknowledgement
+	e := &env{ca: ca}
+	serial := e.issue().SerialNumber.String()
+	if e.revokeToken(serial) != 200 {
+		out += " VIOLATION=revocation-refused"
+	} else {
+		found := false
+		for _, en := range e.fetch().entries {
+			if strings.HasPrefix(en, c.X(serial)+":") {
+				found = true
+			}
+		}
+		if !found {
+			out += " VIOLATION=acknowledged-revocation-missing-from-served-list"
+		}
 	}
 	return in, out
 }
@@ -1452,7 +1479,7 @@ func runACME(ac *ACME) (string, string, string) {
 
 func cornerHists() []*Hist {
 	all := []CertSpec{{"issued", 0}, {"unknown", 0}, {"carried", -7200}, {"carried", -3601}, {"carried", -3600}, {"carried", -3599}, {"carried", -1800}, {"carried", 3600},
-		{"stored", -90000}, {"stored", -3601}, {"stored", -3599}, {"stored", 1800}}
+		{"stored", -90000}, {"stored", -3601}, {"stored", -3599}, {"stored", 1800}, {"stored", 90000}}
 	var ops []Op
 	for i := range all {
 		ops = append(ops, Op{"rev", i, 0})
@@ -1479,7 +1506,7 @@ func genHist(r *c.Rng) *Hist {
 		case 1:
 			h.Certs = append(h.Certs, CertSpec{"unknown", 0})
 		case 2:
-			h.Certs = append(h.Certs, CertSpec{"stored", c.Pick(r, []int{-90000, -7200, -3603, -3602, -3601, -3600, -3599, -3598, -3000, -1, 60, 3600})})
+			h.Certs = append(h.Certs, CertSpec{"stored", c.Pick(r, []int{-90000, -7200, -3603, -3602, -3601, -3600, -3599, -3598, -3000, -1, 60, 3600, 90000, 172800})}) // (> 86400: not valid yet)
 		default:
 			h.Certs = append(h.Certs, CertSpec{"carried", c.Pick(r, []int{-90000, -7200, -3603, -3602, -3601, -3600, -3599, -3598, -3000, -1, 0, 60, 3600})})
 		}
